@@ -75,6 +75,24 @@ pub fn random_picks(rng: &mut Rng, len: usize, tasks: usize, p_spurious: u64, p_
         .collect()
 }
 
+/// Distinct rule names whose sorted order (almost always) differs from the order they are added in.
+pub fn rule_names(rng: &mut Rng, n: usize) -> Vec<String> {
+    let mut pool: Vec<String> = ["zeta", "alpha", "Mid", "rule 10", "rule 2", "b", "a", "_x", "\u{3a9}mega", "10", "9", "B"]
+        .iter()
+        .map(|s| s.to_string())
+        .collect();
+    let mut out = vec![];
+    for i in 0..n {
+        if pool.is_empty() {
+            out.push(format!("r{}", 1000 - i));
+        } else {
+            let j = rng.usize(pool.len());
+            out.push(pool.swap_remove(j));
+        }
+    }
+    out
+}
+
 pub fn generate(seed: u64) -> Scenario {
     let mut rng = Rng::new(seed);
     let mut scn = Scenario::new("C05");
@@ -87,6 +105,7 @@ pub fn generate(seed: u64) -> Scenario {
     scn.text_build = rng.chance(1, 12);
     cfg.allow_in = scn.text_build;
     let nrules = 1 + rng.usize(3);
+    let names = rule_names(&mut rng, nrules);
     let mut grng = rng.fork();
     let mut g = Gen::new(&mut grng, cfg, refs, syms);
     for i in 0..nrules {
@@ -95,7 +114,7 @@ pub fn generate(seed: u64) -> Scenario {
         let ty = *g.rng.pick(&ALL_TYS);
         let d = g.cfg.max_depth;
         let expr = g.gen(ty, d);
-        scn.rules.push(RuleSpec { name: format!("r{i}"), expr });
+        scn.rules.push(RuleSpec { name: names[i].clone(), expr });
     }
     scn.functions = g.functions(&|_| false, true, true, seed);
     scn.inputs = vec![InputSpec::Val(input)];
